@@ -551,7 +551,7 @@ def program_stream(ctx):
         depth = 4
     else:
         seqs = G.sequences(4, 2)
-        n_random = 40000
+        n_random = 30000
         depth = 5
     for names, final in seqs:
         prog, path = G.build_sequence(names, final)
